@@ -277,6 +277,12 @@ func monC18(c *drv.Ctx) {
 				pool = append(pool, &enode{kind: ekProtocol, err: thrift.NewProtocolException(pe.TypeId()+1, pe.Msg())})
 				pool = append(pool, &enode{kind: ekTransport, err: thrift.NewTransportException(pe.TypeId(), pe.Msg()+"x")})
 			}
+			if e.kind == ekProtoWrap && e.inner != nil {
+				// a target whose own chain wraps the same cause (must NOT match: Is is not symmetric)
+				pool = append(pool, &enode{kind: ekWrapf, err: fmt.Errorf("outer: %w", e.inner.err), inner: e.inner})
+				// and a second protocol wrapper around the same cause (matches only via type id + text or the cause)
+				pool = append(pool, &enode{kind: ekProtoWrap, err: thrift.NewProtocolExceptionWithErr(e.inner.err), inner: e.inner})
+			}
 			// inner nodes are targets too
 			for in := e.inner; in != nil; in = in.inner {
 				pool = append(pool, in)
